@@ -748,6 +748,19 @@ def rule_index_elem(prog):
         if not b["p"].startswith("lsp4spl::features") or "/tests" in c.file_of(b["sp"]) or b["k"] not in ("fn", "assoc_fn"):
             continue
         defs_ix = {l_["pat"]["id"]: l_["init"] for l_ in hir.nodes(b["body"], "Let") if l_["pat"].get("k") == "Binding" and l_.get("init") is not None}
+        # (`match found { Some(index) => v[index], .. }` / `if let Some(index) = found`: the binding holds what was searched)
+        for m_ in hir.nodes(b["body"]):
+            if m_.get("k") == "Match":
+                for a_ in m_["arms"]:
+                    pt_ = hir.pat_strip(a_["pat"])
+                    if pt_.get("k") == "TupleStruct" and len(pt_["pats"]) == 1 and hir.pat_strip(pt_["pats"][0]).get("k") == "Binding" and \
+                            (hir.pat_variant(pt_) or "").endswith("Option::Some"):
+                        defs_ix.setdefault(hir.pat_strip(pt_["pats"][0])["id"], m_["scrut"])
+            elif m_.get("k") in ("LetExpr", "Let") and m_.get("init") is not None and m_.get("pat"):
+                pt_ = hir.pat_strip(m_["pat"])
+                if pt_.get("k") == "TupleStruct" and len(pt_["pats"]) == 1 and hir.pat_strip(pt_["pats"][0]).get("k") == "Binding" and \
+                        (hir.pat_variant(pt_) or "").endswith("Option::Some"):
+                    defs_ix.setdefault(hir.pat_strip(pt_["pats"][0])["id"], m_["init"])
 
         def searched_in(e_, vec_place, depth=0):
             """is e_ an index that was found by searching the very vector that is indexed (`v.iter().position(..)`, also through a
